@@ -1,6 +1,6 @@
 import PpciVerif.Proofs.Reloc
-/-! arm `ldr_imm12`, `adr_imm12` and thumb `b_imm11_imm6`: the relocations that OR into the instruction bytes.
-Their theorems assume the field bits are clear in the emitted instruction (as `encode()` leaves them). -/
+/-! arm `ldr_imm12`: a relocation that ORs into the instruction bytes.
+Its theorem assumes the field bits are clear in the emitted instruction (as `encode()` leaves them). -/
 namespace Proofs.Reloc
 open Model.Token Model.Reloc Proofs.Token Spec.RelocSem
 
@@ -97,131 +97,5 @@ theorem ldrImm12_target {S P : Int} {data out : List Nat} (hlen : data.length = 
     norm_num at hb2 ⊢
     split <;> omega
 
-
-/-! ### thumb `b_imm11_imm6` (B<c>.W, T3; ppci sets J1 = J2 = S) -/
-
-theorem or_bit2 (b : Nat) (_hb : b < 256) (h : b / 4 % 2 = 0) : b ||| 4 = b + 4 := by
-  have hr : b % 8 < 4 := by omega
-  have eb : b = (b / 8) <<< 3 ||| b % 8 := by
-    rw [← Nat.shiftLeft_add_eq_or_of_lt (by norm_num; omega), Nat.shiftLeft_eq]; omega
-  have e4 : b % 8 ||| 4 = 4 + b % 8 := by
-    rw [Nat.or_comm, show (4 : Nat) = 1 <<< 2 from rfl, ← Nat.shiftLeft_add_eq_or_of_lt (by norm_num; exact hr)]
-  rw [eb, Nat.or_assoc, e4, ← Nat.shiftLeft_add_eq_or_of_lt (by norm_num; omega), ← Nat.shiftLeft_add_eq_or_of_lt (by norm_num; omega)]
-  omega
-
-theorem word_split {o0 o1 o2 o3 : Nat} (h0 : o0 < 256) (h1 : o1 < 256) (h2 : o2 < 256) :
-    (o0 + 256 * (o1 + 256 * (o2 + 256 * o3))) % 65536 = o0 + 256 * o1
-    ∧ (o0 + 256 * (o1 + 256 * (o2 + 256 * o3))) / 65536 = o2 + 256 * o3 := by omega
-
-theorem half_bits {a b : Nat} (ha : a < 256) :
-    (a + 256 * b) / 2 ^ 10 % 2 ^ 1 = b / 4 % 2 ∧ (a + 256 * b) / 2 ^ 0 % 2 ^ 6 = a % 64
-    ∧ (a + 256 * b) / 2 ^ 13 % 2 ^ 1 = b / 32 % 2 ∧ (a + 256 * b) / 2 ^ 11 % 2 ^ 1 = b / 8 % 2
-    ∧ (a + 256 * b) / 2 ^ 0 % 2 ^ 11 = a + 256 * (b % 8) := by
-  norm_num; omega
-
-theorem bcw_final (d i : Int) (hd : d % 2 = 0) (h1 : -262144 ≤ d) (h2 : d < 262144) (hi : i = d / 2 % 4294967296)
-    (sb n6 n2 n3 : Nat) (hsb : (sb : Int) = i / 131072 % 2) (e6 : (n6 : Int) = i / 2048 % 64)
-    (e2 : (n2 : Int) = i % 2048 % 256) (e3 : (n3 : Int) = i % 2048 / 256 % 8) :
-    Spec.Bits.wrapS 21 ((sb * 1048576 + sb * 524288 + sb * 262144 + n6 * 4096 + (n2 + 256 * n3) * 2 : Nat) : Int) = d := by
-  unfold Spec.Bits.wrapS
-  push_cast
-  norm_num
-  split <;> omega
-theorem or_b3_40 (b : Nat) (_hb : b < 256) (x : Nat) (hx : x < 8) (h : b % 64 = 0) : (b ||| x) ||| 40 = b + x + 40 := by
-  have e : x ||| 40 = 40 + x := by
-    rw [Nat.or_comm, show (40 : Nat) = 5 <<< 3 from rfl, ← Nat.shiftLeft_add_eq_or_of_lt (by norm_num; exact hx)]
-  rw [Nat.or_assoc, e, or_low (k := 6) (by norm_num; exact h) (by norm_num; omega)]
-  omega
-theorem or_b3_0 (b : Nat) (_hb : b < 256) (x : Nat) (hx : x < 8) (h : b % 64 = 0) : (b ||| x) ||| 0 = b + x := by
-  rw [Nat.or_zero, or_low (k := 6) (by norm_num; exact h) (by norm_num; omega)]
-
-theorem align2_even' {P : Int} (h : P % 2 = 0) : align P 2 = P := by
-  unfold align
-  have : (-P) % ((2 : Nat) : Int) = 0 := by norm_num; omega
-  rw [this]; ring
-
-/-- ppci's encoding of B<c>.W is right for distances within ±256 KiB (it accepts ±1 MiB: finding) -/
-theorem bImm11Imm6_target {S P : Int} {data out : List Nat} (hlen : data.length = 4) (hb : Bytes data)
-    (hP : P % 2 = 0) (h6 : bits (wordLE data) 0 6 = 0) (hs : bits (wordLE data) 10 1 = 0)
-    (hj : bits (wordLE data) 24 6 = 0)
-    (h : Thumb.bImm11Imm6 S data P = .ok out) (hfit : Spec.Bits.fitsS 19 (S - P - 4)) :
-    thumbBcWTarget (wordLE out) P = S := by
-  obtain ⟨b0, b1, b2, b3, rfl⟩ := data4' hlen
-  have h0 : b0 < 256 := hb b0 (by simp)
-  have h1 : b1 < 256 := hb b1 (by simp)
-  have h2 : b2 < 256 := hb b2 (by simp)
-  have h3 : b3 < 256 := hb b3 (by simp)
-  unfold bits wordLE wordLE wordLE wordLE wordLE at h6 hs hj
-  norm_num at h6 hs hj
-  have hb0 : b0 % 2 ^ 6 = 0 := by norm_num; omega
-  have hb1 : b1 / 4 % 2 = 0 := by omega
-  have hb3 : b3 % 64 = 0 := by omega
-  unfold Thumb.bImm11Imm6 at h
-  rw [align2_even' hP] at h
-  obtain ⟨_, a0, h⟩ := bind_ok h
-  obtain ⟨_, a1, h⟩ := bind_ok h
-  obtain ⟨imm32, a2, h⟩ := bind_ok h
-  have hS := even_of_beq (assert_ok a0)
-  have hr : -1048576 ≤ S - (P + 4) ∧ S - (P + 4) < 1048574 ∧ (S - (P + 4) - -1048576) % ((2 : Nat) : Int) = 0 := by
-    have := assert_ok a1; unfold inRangeStep at this; simpa using this
-  obtain ⟨w1, w2, rfl⟩ := wrapNegative_ok a2
-  unfold Spec.Bits.fitsS at hfit
-  norm_num at hfit hr
-  generalize hi : (S - (P + 4)) / 2 % 2 ^ 32 = i at h
-  have hi0 : 0 ≤ i := by rw [← hi]; exact Int.emod_nonneg _ (by norm_num)
-  have hi1 : i < 4294967296 := by rw [← hi]; have := Int.emod_lt_of_pos ((S - (P + 4)) / 2) (show (0 : Int) < 2 ^ 32 by norm_num); norm_num at this ⊢; exact this
-  simp only [bind, Except.bind] at h
-  rw [setByte_ok (by omega) (by omega) (by simp)] at h
-  simp only [List.set] at h
-  have hx : (i % 2048 / 256 % 8).toNat < 8 := by omega
-  rw [orByte_ok (i := 3) (old := b3) rfl (by
-    have := or_low (a := b3) (z := (i % 2048 / 256 % 8).toNat) (k := 6) (by norm_num; exact hb3) (by norm_num; omega)
-    rw [this]; omega)] at h
-  simp only [List.set] at h
-  have hsv : i / 131072 % 2 = 0 ∨ i / 131072 % 2 = 1 := by omega
-  have hor3 : (b3 ||| (i % 2048 / 256 % 8).toNat) ||| (i / 131072 % 2 * 32 + i / 131072 % 2 * 8).toNat
-      = b3 + (i % 2048 / 256 % 8).toNat + (i / 131072 % 2 * 40).toNat := by
-    rcases hsv with e | e
-    · rw [e]; simpa using or_b3_0 b3 h3 _ hx hb3
-    · rw [e]; simpa using or_b3_40 b3 h3 _ hx hb3
-  rw [orByte_ok (i := 3) (old := b3 ||| (i % 2048 / 256 % 8).toNat) rfl (by rw [hor3]; omega)] at h
-  simp only [List.set] at h
-  have h6' : (i / 2048 % 64).toNat < 2 ^ 6 := by norm_num; omega
-  rw [orByte_ok (i := 0) (old := b0) rfl (by rw [or_low hb0 h6']; norm_num at h6' ⊢; omega)] at h
-  simp only [List.set] at h
-  have hor1 : b1 ||| (i / 131072 % 2 * 4).toNat = b1 + (i / 131072 % 2 * 4).toNat := by
-    rcases hsv with e | e
-    · rw [e]; simp
-    · rw [e]; simpa using or_bit2 b1 h1 hb1
-  rw [orByte_ok (i := 1) (old := b1) rfl (by rw [hor1]; omega)] at h
-  simp only [List.set] at h
-  cases h
-  rw [hor3, hor1, or_low hb0 h6']
-  unfold thumbBcWTarget bits wordLE wordLE wordLE wordLE wordLE
-  generalize hn2 : (i % 2048 % 256).toNat = n2
-  generalize hn3 : (i % 2048 / 256 % 8).toNat = n3
-  generalize hn4 : (i / 131072 % 2 * 40).toNat = n4
-  generalize hn6 : (i / 2048 % 64).toNat = n6
-  generalize hn1 : (i / 131072 % 2 * 4).toNat = n1
-  have e2 : (n2 : Int) = i % 2048 % 256 := by rw [← hn2]; exact Int.toNat_of_nonneg (by omega)
-  have e3 : (n3 : Int) = i % 2048 / 256 % 8 := by rw [← hn3]; exact Int.toNat_of_nonneg (by omega)
-  have e4 : (n4 : Int) = i / 131072 % 2 * 40 := by rw [← hn4]; exact Int.toNat_of_nonneg (by omega)
-  have e6 : (n6 : Int) = i / 2048 % 64 := by rw [← hn6]; exact Int.toNat_of_nonneg (by omega)
-  have e1 : (n1 : Int) = i / 131072 % 2 * 4 := by rw [← hn1]; exact Int.toNat_of_nonneg (by omega)
-  obtain ⟨sb, hsb⟩ : ∃ sb : Nat, (sb : Int) = i / 131072 % 2 := ⟨(i / 131072 % 2).toNat, Int.toNat_of_nonneg (by omega)⟩
-  have q1 : n1 = 4 * sb := by omega
-  have q4 : n4 = 40 * sb := by omega
-  have hb0' : b0 % 64 = 0 := by norm_num at hb0; exact hb0
-  have p0 : b0 + n6 < 256 ∧ (b0 + n6) % 64 = n6 := by omega
-  have p1 : b1 + n1 < 256 ∧ (b1 + n1) / 4 % 2 = sb := by omega
-  have p3 : (b3 + n3 + n4) % 8 = n3 ∧ (b3 + n3 + n4) / 8 % 2 = sb ∧ (b3 + n3 + n4) / 32 % 2 = sb := by omega
-  have p2 : n2 < 256 := by omega
-  obtain ⟨w1, w2⟩ := word_split (o3 := b3 + n3 + n4) p0.1 p1.1 p2
-  simp only [w1, w2]
-  obtain ⟨f1, f4, _, _, _⟩ := half_bits (b := b1 + n1) p0.1
-  obtain ⟨_, _, f2, f3, f5⟩ := half_bits (b := b3 + n3 + n4) p2
-  rw [f1, f2, f3, f4, f5, p0.2, p1.2, p3.1, p3.2.1, p3.2.2]
-  have := bcw_final (S - (P + 4)) i (by omega) (by omega) (by omega) (by rw [← hi]; norm_num) sb n6 n2 n3 hsb e6 e2 e3
-  rw [this]; ring
 
 end Proofs.Reloc
